@@ -249,7 +249,8 @@ static void accumulate(std::vector<Stat>& stats, const std::vector<std::vector<d
     st.sum += s / P;
   }
 }
-static void judge(Ctx& c, std::vector<Stat>& stats, int sim, const std::string& keyBase, int R, bool meanNonZero)
+static void judge(Ctx& c, std::vector<Stat>& stats, int sim, const std::string& keyBase, int R, bool meanNonZero,
+                  const std::string& foldKey = "")
 {
   // means first: a covariance centred on a wrong mean is contaminated by the square of the mean error, which would only
   // repeat the mean finding under other keys; in that case the covariance statistics are skipped (and counted)
@@ -270,6 +271,7 @@ static void judge(Ctx& c, std::vector<Stat>& stats, int sim, const std::string& 
     bool ok    = std::isfinite(T) && err <= bound;
     c.check(st.cls == "mean" ? "mean" : st.cls == "variance" ? "variance" : (st.iv == st.jv ? "covariance" : "cross-covariance"),
             // key = simulator : support / model class : {mean, variance, covariance, cross-covariance}; the lag class is in the detail
+            (!foldKey.empty() && st.cls != "mean") ? foldKey :
             keyBase + ":" + (st.cls == "mean" ? std::string("mean") + (meanNonZero ? ":model-mean-nonzero" : ":model-mean-zero")
                              : st.cls == "variance" ? "variance" : st.iv == st.jv ? "covariance" : "cross-covariance"), ok, std::isfinite(T) ? err : INFINITY, bound,
             ok ? "" : fmt("[%s] %s: ensemble %.6g model %.6g, bound %.4g (z*SD part %.4g, allowance %.4g), R=%d", st.cls.c_str(), st.label.c_str(), T, st.E, bound,
@@ -612,7 +614,8 @@ static void fieldCase(Rng& r, Ctx& c, int sim, int variant)
   FullCov C;
   CholCtx chol;
   std::unique_ptr<Model> model;
-  std::string support = "grid";
+  std::string support = "grid", specClass, fftClass;
+  bool meanProbe = false; // simulate a few more realisations with a non-zero model mean and test the ensemble mean only
   defineDefaultSpace(ESpaceType::RN, 2);
 
   if (sim == S_TUB && variant == 0)
@@ -670,10 +673,11 @@ static void fieldCase(Rng& r, Ctx& c, int sim, int variant)
     int n = th ? 20 : 16;
     if (variant == 2) gridSupport(cs.sp, 2, {n + 4, n - 3}, 1.);
     else gridSupport(cs.sp, 2, {n, n}, 1.);
-    drawGridModel(r, cs, {"SPHERICAL", "EXPONENTIAL", "GAUSSIAN", "CUBIC", "MATERN"}, 1, false, variant == 1 ? 1 : 0, 0.25, 0,
+    drawGridModel(r, cs, {"SPHERICAL", "EXPONENTIAL", "GAUSSIAN", "CUBIC", "MATERN"}, 1, false, variant == 1 ? 1 : 0, 0., 0,
                   r.uni(0.125, 0.17) * n);
-    support       = variant == 2 ? "grid-nonsquare" : "grid-square";
-    support += variant == 1 ? ":aniso" : ":iso";
+    support       = variant == 2 ? "grid-nonsquare" : variant == 1 ? "grid-square:aniso" : "grid-square:iso";
+    fftClass      = variant == 2 ? "grid-nonsquare" : variant == 1 ? "anisotropy-ignored" : "";
+    meanProbe     = variant == 0;
     cs.fftAlias   = r.coin(0.7);
     cs.fftPercent = 0.1;
     cs.R          = th ? 4000 : 800;
@@ -682,25 +686,38 @@ static void fieldCase(Rng& r, Ctx& c, int sim, int variant)
   }
   else if (sim == S_SPECTRAL)
   {
+    // variant (block index mod 4) selects one input class per open finding, so that every run visits each of them:
+    //   0 gaussian, unit sill, isotropic range 2.9 cells (a lag of 2 cells sits where exp(-3x) and exp(-1.5x) differ most)
+    //   1 matern nu in {1.5, 2.5}, unit sill, isotropic
+    //   2 exponential / matern(0.5) with a sill far from 1
+    //   3 reference: exponential / matern(0.5), unit sill, possibly anisotropic (+ the model-mean probe)
     int n = th ? 20 : 16;
     gridSupport(cs.sp, 2, {n, n}, 1.);
-    // variant 0: unit sill; variant 1: sill far from 1
-    drawGridModel(r, cs, {"GAUSSIAN", "EXPONENTIAL", "MATERN"}, 1, false, 2, 0.25, variant == 0 ? 1 : 0);
+    if (variant == 0) drawGridModel(r, cs, {"GAUSSIAN"}, 1, false, 0, 0., 1, 2.9);
+    else if (variant == 1)
     {
-      const CovSpec& cv = cs.model.covs[0];
-      support = "grid:" + cv.type + (cv.type == "MATERN" ? (cv.param == 0.5 ? "(nu=0.5)" : "(nu!=0.5)") : "");
+      drawGridModel(r, cs, {"MATERN"}, 1, false, 0, 0., 1, 4.);
+      cs.model.covs[0].param = r.coin() ? 1.5 : 2.5;
     }
-    support += variant == 0 ? ":sill=1" : ":sill!=1";
+    else
+    {
+      drawGridModel(r, cs, {"EXPONENTIAL", "MATERN"}, 1, false, 2, 0., variant == 2 ? 0 : 1);
+      if (cs.model.covs[0].type == "MATERN") cs.model.covs[0].param = 0.5;
+    }
+    specClass = variant == 0 ? "gaussian-range" : variant == 1 ? "matern-nu" : variant == 2 ? "sill-not-applied" : "reference";
+    support   = "grid";
+    meanProbe = variant == 3;
     cs.ns    = r.pick(std::vector<int>{100, 400});
-    cs.R     = th ? 6000 : 1200;
+    cs.R     = th ? 6000 : 2000;
     cs.batch = 20;
-    cs.sig += fmt(":ns=%d", cs.ns);
+    cs.sig += fmt(":%s:nu=%g:ns=%d", specClass.c_str(), cs.model.covs[0].param, cs.ns);
   }
   else if (sim == S_SPDE)
   {
     int n = 12;
     gridSupport(cs.sp, 2, {n, n}, 1.);
-    drawGridModel(r, cs, {"MATERN"}, 1, false, 2, 0.25);
+    drawGridModel(r, cs, {"MATERN"}, 1, false, 2, 0.);
+    meanProbe = true;
     cs.model.covs[0].param = 1.;
     // keep the internal mesh small: ranges of 5-7 cells, moderate anisotropy
     cs.model.covs[0].ranges[0] = r.uni(5., 7.);
@@ -837,7 +854,48 @@ static void fieldCase(Rng& r, Ctx& c, int sim, int variant)
   if (!c.truth("call", keyBase + ":call-failed", !failed, "the simulator returned an error or an unexpected number of columns")) return;
   bool meanNonZero = false;
   for (double m : cs.model.means) if (m != 0) meanNonZero = true;
-  judge(c, stats, sim, keyBase, cs.R, meanNonZero);
+  // keys folded by root cause for the input classes of the open findings (one key whatever the statistic)
+  std::string foldKey;
+  if (sim == S_SPECTRAL && specClass != "reference") foldKey = "C14:spectral:" + specClass;
+  if (sim == S_SPECTRAL && specClass == "reference") keyBase = "C14:spectral:reference";
+  if (sim == S_FFT && !fftClass.empty()) foldKey = "C14:simfft:" + fftClass;
+  judge(c, stats, sim, keyBase, cs.R, meanNonZero, foldKey);
+
+  // the model mean: only the turning bands are exercised with a non-zero mean in the main run; for the other simulators a
+  // short extra ensemble with the same model and a mean far from 0 checks the ensemble mean alone
+  if (meanProbe)
+  {
+    ModelSpec ms = cs.model;
+    double sd0   = std::sqrt(C(0, 0));
+    ms.means     = {(r.coin() ? 1. : -1.) * r.uni(3., 30.) * sd0};
+    auto model2  = buildModel(ms);
+    int Rm       = sim == S_SPDE ? 100 : 200;
+    Stat st;
+    st.cls = "mean";
+    st.iv = st.jv = 0;
+    st.label      = fmt("mean of the field for a model mean of %g", ms.means[0]);
+    finishStat(st, C, S);
+    int got = 0;
+    bool bad = false;
+    while (got < Rm)
+    {
+      int nb = std::min(cs.batch, Rm - got);
+      if (!runBatch(cs, model2.get(), &chol, drawSimSeed(r), nb, z)) { bad = true; break; }
+      for (auto& zr : z)
+      {
+        double a = 0;
+        for (int k = 0; k < S; k++) a += zr[0][k] - ms.means[0];
+        st.sum += a / S;
+      }
+      got += nb;
+    }
+    if (!bad)
+    {
+      double T = st.sum / Rm, bound = ZLEVEL * std::sqrt(st.V1 / Rm) + ALLOW_MEAN[sim] * st.scale;
+      c.check("mean", std::string("C14:") + SIMN[sim] + ":mean:model-mean-nonzero", std::fabs(T) <= bound, std::fabs(T), bound,
+              fmt("model mean %g: ensemble mean of (Z - mean) = %g over %d realisations, bound %g", ms.means[0], T, Rm, bound));
+    }
+  }
 
   // designed power: how many bounds away the realistic breaks would be (evidence only)
   {
@@ -1142,7 +1200,7 @@ static void run_case(Rng& r, Ctx& c)
     case 6: fieldCase(r, c, S_TUB, (c.icase / 16) % 2 ? 2 : 3); break;
     case 7: fieldCase(r, c, S_FFT, 0); break;
     case 8: fieldCase(r, c, S_FFT, (c.icase / 16) % 2 ? 1 : 2); break;
-    case 9: fieldCase(r, c, S_SPECTRAL, (int)((c.icase / 16) % 2)); break;
+    case 9: fieldCase(r, c, S_SPECTRAL, (int)((c.icase / 16) % 4)); break;
     case 10: fieldCase(r, c, S_CHOL, (int)((c.icase / 16) % 5)); break;
     case 11: fieldCase(r, c, S_SPDE, 0); break;
     default: lawCase(r, c, (int)((c.icase / 16 * 4 + (slot - 12)) % 12)); break;
